@@ -157,6 +157,11 @@ def _all_tensors(
                 yield attr.value
             elif attr.type == _enums.AttributeType.TENSORS:
                 yield from attr.value
+            elif attr.type == _enums.AttributeType.GRAPH:
+                yield from _all_tensors(attr.value, include_attributes=True)
+            elif attr.type == _enums.AttributeType.GRAPHS:
+                for default_graph in attr.value:
+                    yield from _all_tensors(default_graph, include_attributes=True)
     # Look at constant attributes in nodes
     for node in _traversal.RecursiveGraphIterator(graph):
         for attr in node.attributes.values():
